@@ -23,7 +23,7 @@ import (
 	"verifharness/shapes"
 )
 
-func main() { Main("C03", check, exprgen.Gen, sdfgen.Gen, stateGen) }
+func main() { Main("C03", check, stateGen, exprgen.Gen, sdfgen.Gen) }
 
 const imp = "From Sdfx Require Import Sdf.C03Corr.\nOpen Scope float_scope."
 
